@@ -17,6 +17,7 @@ Check(r, idx) ==
     \o (IF r.st[3] < r.nover \/ r.st[3] > r.nover + r.nexp THEN <<F(idx, "C20.evictions", <<r.st[3], r.nover, r.nexp>>)>> ELSE <<>>)
     \o (IF r.sc.expiry = 0 /\ r.st[3] # r.nover THEN <<F(idx, "C20.evictions_exact", <<r.st[3], r.nover>>)>> ELSE <<>>)
     \o (IF r.sc.expiry = 0 /\ r.sc.max > 0 /\ r.st[4] # r.nover THEN <<F(idx, "C20.eviction_weight", <<r.st[4], r.nover>>)>> ELSE <<>>)
+    \o (IF r.churnnc # 0 THEN <<F(idx, "C02.callback_not_once", r.churnnc)>> ELSE <<>>)
     \o (IF \E j \in 1 .. 6 : r.stmid[j] > r.st[j] THEN <<F(idx, "C20.decreased", <<r.stmid, r.st>>)>> ELSE <<>>)
 Init == i = 1 /\ dev = <<>>
 Next == \/ /\ i <= Len(Recs)
